@@ -149,9 +149,15 @@ def main():
     findings_confs = [('interactions-pairwise', dict(target_ranking_only='False', combination_number_upper_bound=6, interaction_order=2, heuristic='Constant'), 4),
                       ('3mr-order2', dict(target_ranking_only='True', combination_number_upper_bound=6, interaction_order=2, heuristic='MI-numba-3mr'), 3)]
     nb = 6 if tier == 'quick' else 20
+    # one run whose last batch is the trailing partial batch (> 1024 rows): its selections count like any other batch's
+    confs.append(('target-only-tail-batch', dict(target_ranking_only='True', combination_number_upper_bound=2, heuristic='Constant', minibatch_size=1100, _rows=2 * 1100 + 1030), 5))
+    expected_batches = {}
     for name, a, nfeat in confs + findings_confs:
-        cols, lines = make_csv(rng, nfeat, nb * 40 + 7)
-        a = dict(a, minibatch_size=40, subsampling=1)
+        a = dict(a)
+        nrows = a.pop('_rows', nb * 40 + 7)
+        cols, lines = make_csv(rng, nfeat, nrows)
+        a = dict(dict(minibatch_size=40), **a, subsampling=1)
+        expected_batches[name] = nrows // a['minibatch_size'] + (1 if nrows % a['minibatch_size'] > 1024 else 0)
         jobs.append({'op': 'run_stream', 'columns': cols, 'lines': lines, 'args': a, 'opts': {'log_parse': False, 'log_ids': False}})
         meta.append(name)
     got = PC.pipe_eval(jobs, modules=['pipe_ops'])
@@ -177,7 +183,7 @@ def main():
                         calls.append({'e': 'evaluated', 'keys': sorted(keys)})
             nbatches = len([e for e in r['ok']['events'] if e['e'] == 'batch'])
             ncalls_only = [e for e in calls if e['e'] == 'call']
-            if not ncalls_only or nbatches < nb:
+            if not ncalls_only or nbatches < expected_batches[name]:
                 raise E.MachineryError(f'{name}: recorder saw {len(calls)} sampler calls in {nbatches} batches')
             tf = os.path.join(wd, f'{name}.ndjson')
             with open(tf, 'w') as f:
